@@ -1,0 +1,56 @@
+// Verification hooks - compiled only with -DMULTITENSOR_VERIF.
+// Observation points used by the /verif correspondence harness; no effect otherwise.
+
+#pragma once
+
+#ifdef MULTITENSOR_VERIF
+
+#include <cstddef>
+#include <functional>
+#include <vector>
+
+#include "multitensor/tensor.hpp"
+
+namespace multitensor
+{
+namespace verif
+{
+
+//! @brief Observer callbacks (all optional)
+struct Hooks
+{
+    //! Called after the initialization of a realization (v is nullptr for undirected networks)
+    std::function<void(size_t realization,
+                       const tensor::Matrix<double> &u,
+                       const tensor::Matrix<double> *v,
+                       const std::vector<double> &w)>
+        realization_start;
+
+    //! Called right after the likelihood has been computed; may overwrite it (scripted mode)
+    std::function<void(size_t iteration, double &L2)> likelihood_computed;
+
+    //! Called after each call of Solver::loop
+    std::function<void(size_t realization,
+                       size_t iteration,
+                       const tensor::Matrix<double> &u,
+                       const tensor::Matrix<double> *v,
+                       const std::vector<double> &w,
+                       double L2,
+                       size_t coincide,
+                       int reason)>
+        iteration_end;
+
+    //! Called at the end of a realization
+    std::function<void(size_t realization, double L2, bool adopted)> realization_end;
+};
+
+inline Hooks &hooks()
+{
+    static Hooks h;
+    return h;
+}
+
+} // namespace verif
+} // namespace multitensor
+
+#endif // MULTITENSOR_VERIF
